@@ -9,6 +9,9 @@ import json, os, shutil, subprocess, sys, re, time
 ROOT = os.path.dirname(os.path.dirname(os.path.abspath(__file__)))
 SEEDED = os.path.join(ROOT, "seeded")
 PY = "/venv/bin/python"
+# the tree the change is applied to and the checks read: /repo, or (VERIF_REPO) a scratch worktree of it, so that changes can be
+# re-run while other checks use /repo
+TREE = os.environ.get("VERIF_REPO", "/repo")
 
 
 def sh(cmd, cwd=None, env=None, timeout=1800):
@@ -73,11 +76,11 @@ def do_run(name, pids):
     d = os.path.join(SEEDED, name)
     meta = json.load(open(os.path.join(d, "meta.json")))
     pids = pids or [meta["property"]]
-    rc, out = sh("git -C /repo status --porcelain")
+    rc, out = sh("git -C %s status --porcelain" % TREE)
     if out.strip():
-        print("refusing: /repo has uncommitted changes")
+        print("refusing: %s has uncommitted changes" % TREE)
         sys.exit(2)
-    rc, out = sh("git -C /repo apply %s/patch.diff" % d)
+    rc, out = sh("git -C %s apply %s/patch.diff" % (TREE, d))
     if rc != 0:
         print(name, "patch does not apply:", out[-200:])
         return
@@ -91,7 +94,7 @@ def do_run(name, pids):
                         "wall_s": round(time.time() - t0)}
             print(name, pid, "CAUGHT" if res[pid]["caught"] else "MISSED(rc=%d)" % rc, res[pid]["first"][:200])
     finally:
-        sh("git -C /repo checkout -- .")
+        sh("git -C %s checkout -- ." % TREE)
     meta.setdefault("checks_run", {}).update(res)
     json.dump(meta, open(os.path.join(d, "meta.json"), "w"), indent=1)
 
